@@ -512,8 +512,8 @@ pub fn run(args: &Args) -> Report {
         }
     }
 
-    rep.floor("constructors_seen", rep.n_seen("ctors"), CTORS.len() as u64);
-    rep.floor("length_classes_seen", rep.n_seen("lengths"), lengths.len() as u64);
+    rep.floor_set("ctors", CTORS.len() as u64);
+    rep.floor_set("lengths", lengths.len() as u64);
     rep.floor("utf8_invalid_cases", rep.get("utf8_invalid_cases"), 10);
     rep.floor("utf8_valid_cases", rep.get("utf8_valid_cases"), 10);
     rep.floor("storm_hand_offs", hops_total, if miri { 3 } else { 100 });
